@@ -10,6 +10,8 @@ def run(ctx):
     gr.rule_decode_table(ctx, g, "R03.1")
     gr.rule_parser_acceptance(ctx, g, "R03.2")
     gr.rule_repeatable_records(ctx, g, "R03.11")
+    gr.rule_nothing_read_after_endlib(ctx, g, "R03.4b")
+    gr.rule_strings_are_utf8(ctx, g, "R03.6c")
     gr.rule_reader_placement(ctx, g, "R03.3")
     gr.rule_strans_bits_reader(ctx, g, "R03.3b")
     gr.rule_stop_at_endlib(ctx, g, "R03.4")
